@@ -26,7 +26,7 @@ def _pf(model):
 
 @rule(
     "R11a",
-    ["C11", "C09", "C12"],
+    ["C11", "C09", "C12", "C06", "C18"],
     """COORDINATE SPACES: (i) in a _filtered_task(self, index) the argument is an ABSOLUTE partition number; the
     filtered views self.divisions / self.npartitions / self._partitions / self.__dask_keys__() describe only the
     selected partitions and may not be indexed by or compared with it. (ii) in a layer iterating
